@@ -47,10 +47,13 @@ MIN_NONTRIVIAL = {"quick": 150, "thorough": 2000}
 
 @st.composite
 def case_strategy(draw):
+    # (mailboxes beyond 256 bytes exist as well: up to 1486 fit a frame)
     out_sz = draw(st.sampled_from([24, 32, 40, 64, 128, 256])
-                  | st.integers(24, 256))
+                  | st.integers(24, 256)
+                  | st.sampled_from([257, 300, 512, 1024, 1400]))
     in_sz = draw(st.sampled_from([24, 32, 40, 64, 128, 256])
-                 | st.integers(24, 256))
+                 | st.integers(24, 256)
+                 | st.sampled_from([257, 300, 512, 1024, 1400]))
     ops = []
     for _ in range(draw(st.integers(1, 4))):
         op = draw(st.sampled_from(["read", "write"]))
